@@ -31,7 +31,7 @@ PROBES = ['reply-and-deadline-both-enabled', 'reply-after-timeout', 'duplicate-r
           'unsolicited-reply-delivered', 'loss-with-pending-calls', 'replies-out-of-call-order',
           'sig-mismatch', 'call-issued-from-callback', 'second-connection-same-serials',
           'identical-call-in-flight-twice', 'serial-wrap-around',
-          'hang-up-from-callback', 'deadline-refused-by-the-reactor', 'call-cancelled-by-its-owner', 'call-cancelled-by-its-owner-from-a-callback']
+          'hang-up-from-callback', 'deadline-refused-by-the-reactor', 'call-after-the-loss', 'call-cancelled-by-its-owner', 'call-cancelled-by-its-owner-from-a-callback']
 COMPONENTS = {
     'real': ['txdbus.client.DBusClientConnection (callRemote, callRemoteMessage, '
              'methodReturnReceived, errorReceived, _onMethodTimeout, connectionLost, _cbCvtReply)',
@@ -112,6 +112,7 @@ def scenario(ctx):
     later = [ds.choose(3)]
     pipe_dc = rig.conn.pipes[1]
     client_lost = [False]
+    late_budget = [ds.choose(3)]
     completed = []
 
     def emit(m, label):
@@ -192,6 +193,40 @@ def scenario(ctx):
             replies_seen[0] += 1
             return orig(msg)
         setattr(cl, hookname, traced)
+
+    def issue_after_loss():
+        # the application has not noticed yet (or does not care) that the connection is gone and
+        # calls, with a deadline: the call ends with TimeOut at its deadline (or fails at once) -
+        # once, leaving no timer behind
+        cid = len(calls)
+        c = Call(cid)
+        calls.append(c)
+        c.timeout = ds.pick([1.0, 5.0, 30.0])
+        before = set(id(t) for t in sim.timers)
+        sim.probe('call-after-the-loss')
+        sim.log('op', 'call-after-loss', cid)
+        d = rig.call(cl.callRemote, '/svc', 'Late', interface=SVC_IFACE, destination=SVC_DEST,
+                     timeout=c.timeout)
+        c.obs = Obs(sim, cid, sink).watch(d)
+        c.d = d
+        c.member, c.sig = 'Late', ''
+        new = [t for t in sim.timers if id(t) not in before]
+        c.serial = ('late', cid)
+        by_serial[c.serial] = c
+        if c.obs.fired:
+            # failed at once: nothing may be left behind for it
+            if new and any(t.active() for t in new):
+                raise Violation('C08/leak-timer', 'deadline armed for a call that failed at once',
+                                'a call issued after the loss failed at once (%r) but armed %d timer(s)'
+                                % (c.obs.fired[0], len(new)))
+            calls.pop()
+            sink[:] = [e for e in sink if e[0] != cid]
+            return
+        if len(new) != 1:
+            raise Violation('C08/deadline', 'no timer', 'callRemote(timeout=...) after the loss created '
+                            '%d timers' % len(new))
+        c.dc = new[0]
+        pending[c.serial] = c
 
     def issue(forced=None):
         cid = len(calls)
@@ -328,6 +363,12 @@ def scenario(ctx):
 
     def extra():
         ops = []
+        if budget[0] > 0 and client_lost[0] and not scripted and late_budget[0] > 0:
+            def late():
+                budget[0] -= 1
+                late_budget[0] -= 1
+                issue_after_loss()
+            ops.append(('late-call', late))
         if budget[0] > 0 and cl.transport.state == net.OPEN:
             def op():
                 budget[0] -= 1
